@@ -405,6 +405,86 @@ VARIANTS["C20"] = [
 ]
 VARIANTS["C20"] = [v for v in VARIANTS["C20"] if v.get("rule") is not None or v["kind"] == "refactor"]
 
+# --------------------------------------------------------------------------- C10
+HIF = "xgi/convert/hif_dict.py"
+HD = "xgi/convert/hypergraph_dict.py"
+BG = "xgi/convert/bipartite_graph.py"
+VARIANTS["C10"] = [
+    M("hif-writer-renames-key", HIF, "    data[\"metadata\"] = {}\n    data[\"metadata\"].update(H._net_attr)", "    data[\"meta\"] = {}\n    data[\"meta\"].update(H._net_attr)", "T-KEYS", "to_hif_dict"),
+    M("hif-record-key-renamed", HIF, "            IDDict({\"edge\": e, \"node\": n, \"direction\": _convert_d(d)})", "            IDDict({\"edge\": e, \"node\": n, \"dir\": _convert_d(d)})", "T-KEYS", "to_hif_dict"),
+    M("hif-direction-swapped-on-read", HIF, "    _convert_d = lambda d: \"in\" if d == \"tail\" else \"out\"", "    _convert_d = lambda d: \"out\" if d == \"tail\" else \"in\"", "T-KEYS", "hif"),
+    M("hif-asc-not-dispatched", HIF, "    if network_type == \"asc\":\n        H = SimplicialComplex(H)", "    if network_type == \"simplicial\":\n        H = SimplicialComplex(H)", "T-KEYS", "hif"),
+    M("hif-node-cast-dropped", HIF, "            n = _convert_id(record[\"node\"], nodetype)\n            if \"attrs\" in record:", "            n = record[\"node\"]\n            if \"attrs\" in record:", "T-CAST", "from_hif_dict"),
+    M("hif-edge-cast-with-nodetype", HIF, "        e = _convert_id(record[\"edge\"], edgetype)\n\n        if network_type == \"directed\":", "        e = _convert_id(record[\"edge\"], nodetype)\n\n        if network_type == \"directed\":", "T-CAST", "from_hif_dict"),
+    M("hif-incidences-on-demand", HIF, "    elif data[\"network-type\"] in {\"undirected\", \"asc\"}:\n        data[\"incidences\"] = [\n            IDDict({\"edge\": e, \"node\": n}) for n, e in to_bipartite_edgelist(H)\n        ]", "    elif data[\"network-type\"] in {\"undirected\", \"asc\"}:\n        for n, e in to_bipartite_edgelist(H):\n            data[\"incidences\"].append(IDDict({\"edge\": e, \"node\": n}))", "T-DEF", "to_hif_dict"),
+    M("hif-isolates-lose-attrs", HIF, "    for n in isolates.union(nodes_with_attrs):\n        attr = {\"attrs\": H.nodes[n]} if H.nodes[n] else {}\n        data[\"nodes\"].append(IDDict({\"node\": n}) + attr)", "    for n in isolates.union(nodes_with_attrs):\n        if n in isolates:\n            data[\"nodes\"].append(IDDict({\"node\": n}))\n        else:\n            data[\"nodes\"].append(IDDict({\"node\": n}) + {\"attrs\": H.nodes[n]})", "T-ATTRS", "to_hif_dict"),
+    M("hdict-edge-data-not-cast", HD, "            edge_data = {\n                edgetype(e): dd\n                for e, dd in data[\"edge-data\"].items()\n                if edgetype(e) in H.edges\n            }", "            edge_data = {\n                e: dd\n                for e, dd in data[\"edge-data\"].items()\n                if e in H.edges\n            }", "T-CAST", "from_hypergraph_dict"),
+    M("hdict-reader-renamed-key", HD, "        for idx, edge in data[\"edge-dict\"].items():", "        for idx, edge in data[\"edges\"].items():", "T-KEYS", "hypergraph_dict"),
+    M("converter-dihypergraph-no-net-attr", "xgi/convert/higher_order_network.py", "        H.add_edges_from((ee.dimembers(e), e, deepcopy(attr)) for e, attr in ee.items())\n        H._net_attr = deepcopy(data._net_attr)\n", "        H.add_edges_from((ee.dimembers(e), e, deepcopy(attr)) for e, attr in ee.items())\n", "T-SIBLING", "to_dihypergraph"),
+    M("converter-drops-edge-ids", "xgi/convert/higher_order_network.py", "    elif isinstance(data, SimplicialComplex):\n        H = empty_hypergraph(create_using)\n        H.add_nodes_from((n, attr) for n, attr in data.nodes.items())\n        ee = data.edges\n        H.add_edges_from((ee.members(e), e, deepcopy(attr)) for e, attr in ee.items())", "    elif isinstance(data, SimplicialComplex):\n        H = empty_hypergraph(create_using)\n        H.add_nodes_from((n, attr) for n, attr in data.nodes.items())\n        ee = data.edges\n        H.add_edges_from((ee.members(e), deepcopy(attr)) for e, attr in ee.items())", "T-SIBLING", "to_hypergraph"),
+    M("bipartite-undirected-positional", BG, "        elif v in edges:\n            H.add_node_to_edge(v, u)\n        else:\n            H.add_node_to_edge(u, v)", "        else:\n            H.add_node_to_edge(v, u)", "T-ROLE", "from_bipartite_graph"),
+    R("hif-writer-dict-built-in-order", HIF, "    data[\"metadata\"] = {}\n    data[\"metadata\"].update(H._net_attr)", "    data[\"metadata\"] = dict(H._net_attr)\n    data[\"metadata\"].update({})"),
+    R("hif-attrs-separate-branches", HIF, "    for n in isolates.union(nodes_with_attrs):\n        attr = {\"attrs\": H.nodes[n]} if H.nodes[n] else {}\n        data[\"nodes\"].append(IDDict({\"node\": n}) + attr)", "    for n in isolates.union(nodes_with_attrs):\n        if H.nodes[n]:\n            data[\"nodes\"].append(IDDict({\"node\": n}) + {\"attrs\": H.nodes[n]})\n        else:\n            data[\"nodes\"].append(IDDict({\"node\": n}))"),
+]
+
+# --------------------------------------------------------------------------- C11
+RH = "xgi/readwrite/hif.py"
+RJ = "xgi/readwrite/json.py"
+RE = "xgi/readwrite/edgelist.py"
+RB = "xgi/readwrite/bipartite.py"
+RI = "xgi/readwrite/incidence.py"
+VARIANTS["C11"] = [
+    M("read_hif-drops-edgetype", RH, "    return from_hif_dict(data, nodetype=nodetype, edgetype=edgetype)", "    return from_hif_dict(data, nodetype=nodetype)", "F-FWD", "read_hif"),
+    M("read_hif-edgetype-gets-nodetype", RH, "    return from_hif_dict(data, nodetype=nodetype, edgetype=edgetype)", "    return from_hif_dict(data, nodetype=nodetype, edgetype=nodetype)", "F-FWD", "read_hif"),
+    M("write_hif-strips-metadata", RH, "    data = to_hif_dict(H)\n\n    datastring = json.dumps(data, indent=2)", "    data = to_hif_dict(H)\n    data.pop(\"metadata\", None)\n\n    datastring = json.dumps(data, indent=2)", "F-DELEG", "write_hif"),
+    M("write_hif-opens-first", RH, "    data = to_hif_dict(H)\n\n    datastring = json.dumps(data, indent=2)\n\n    with open(path, \"w\") as output_file:\n        output_file.write(datastring)", "    with open(path, \"w\") as output_file:\n        data = to_hif_dict(H)\n        datastring = json.dumps(data, indent=2)\n        output_file.write(datastring)", "F-ATOMIC", "write_hif"),
+    M("collection-relative-path-mismatch", RH, "            fname = f\"{path}/{collection_name}_{name}.json\"\n            collection_data[\"datasets\"][name] = {\n                \"relative-path\": f\"{collection_name}_{name}.json\"\n            }", "            fname = f\"{path}/{collection_name}_{name}.json\"\n            collection_data[\"datasets\"][name] = {\n                \"relative-path\": f\"{collection_name}-{name}.json\"\n            }", "F-DELEG", "write_hif_collection"),
+    M("edgelist-literal-separator", RE, "        yield delimiter.join(map(str, e))", "        yield \" \".join(map(str, e))", "F-DELIM", "generate_edgelist"),
+    M("bipartite-split-whitespace", RB, "        s = line.strip().split(delimiter)\n        if len(s) < 2:", "        s = line.strip().split()\n        if len(s) < 2:", "F-DELIM", "parse_bipartite_edgelist"),
+    M("read_edgelist-drops-nodetype", RE, "            create_using=create_using,\n            nodetype=nodetype,\n        )\n\n\ndef parse_edgelist", "            create_using=create_using,\n        )\n\n\ndef parse_edgelist", "F-FWD", "read_edgelist"),
+    M("read_bipartite-ignores-dual", RB, "            edgetype=edgetype,\n            dual=dual,\n        )", "            edgetype=edgetype,\n            dual=False,\n        )", "F-FWD", "read_bipartite_edgelist"),
+    M("write_bipartite-default-delimiter", RB, "        for line in generate_bipartite_edgelist(H, delimiter):", "        for line in generate_bipartite_edgelist(H):", "F-FWD", "write_bipartite_edgelist"),
+    M("incidence-no-ndmin", RI, "            path, comments=comments, delimiter=delimiter, encoding=encoding, ndmin=2\n", "            path, comments=comments, delimiter=delimiter, encoding=encoding\n", "F-2D", "read_incidence_matrix"),
+    M("hif-incidences-on-demand", HIF, "    elif data[\"network-type\"] in {\"undirected\", \"asc\"}:\n        data[\"incidences\"] = [\n            IDDict({\"edge\": e, \"node\": n}) for n, e in to_bipartite_edgelist(H)\n        ]", "    elif data[\"network-type\"] in {\"undirected\", \"asc\"}:\n        for n, e in to_bipartite_edgelist(H):\n            data[\"incidences\"].append(IDDict({\"edge\": e, \"node\": n}))", "T-DEF", "to_hif_dict"),
+    R("incidence-atleast-2d", RI, "        np.loadtxt(\n            path, comments=comments, delimiter=delimiter, encoding=encoding, ndmin=2\n        ),", "        np.atleast_2d(\n            np.loadtxt(path, comments=comments, delimiter=delimiter, encoding=encoding)\n        ),"),
+    R("write_hif-dumps-inline", RH, "    data = to_hif_dict(H)\n\n    datastring = json.dumps(data, indent=2)\n", "    data = to_hif_dict(H)\n    datastring = json.dumps(data, indent=2, sort_keys=False)\n"),
+]
+
+# --------------------------------------------------------------------------- C13
+HO = "xgi/linalg/hodge_matrix.py"
+VARIANTS["C13"] = [
+    R("sign-plus-i-is-a-global-sign-per-order", HO, "                    (orientations[u_simplex_id] + order - i) % 2\n", "                    (orientations[u_simplex_id] + i) % 2\n"),
+    M("sign-ignores-face-orientation", HO, "                        subfaces_induced_orientation[count] + orientations[subface_ID]\n", "                        subfaces_induced_orientation[count]\n", "B-SIGN", "boundary_matrix"),
+    M("sign-constant", HO, "                    (orientations[u_simplex_id] + order - i) % 2\n", "                    (orientations[u_simplex_id] + order) % 2\n", "B-SIGN", "boundary_matrix"),
+    M("sort-after-subfaces", HO, "                u_simplex = list(S.edges.members(u_simplex_id))\n                u_simplex.sort(\n                    key=lambda e: (isinstance(e, str), e)\n                )  # Sort the simplex's vertices to get a reference orientation\n                # The key is needed to sort a mixed list of numbers and strings:\n                #   it ensures that node labels which are numbers are put before\n                #   strings, thus giving a list [sorted numbers, sorted strings]\n                matrix_id = simplices_u_dict[u_simplex_id]\n                u_simplex_subfaces = S._subfaces(u_simplex, all=False)", "                u_simplex = list(S.edges.members(u_simplex_id))\n                matrix_id = simplices_u_dict[u_simplex_id]\n                u_simplex_subfaces = S._subfaces(u_simplex, all=False)\n                u_simplex.sort(key=lambda e: (isinstance(e, str), e))", "B-ORDER", "boundary_matrix"),
+    M("edge-branch-different-key", HO, "                u_simplex.sort(\n                    key=lambda e: (isinstance(e, str), e)\n                )  # Sort the simplex's vertices to get a reference orientation\n                # The key is needed to sort a mixed list of numbers and strings:\n                #   it ensures that node labels which are numbers are put before\n                #   strings, thus giving a list [sorted numbers, sorted strings]\n                matrix_id = simplices_u_dict[u_simplex_id]\n                head_idx = u_simplex[1]", "                u_simplex.sort(key=str)\n                matrix_id = simplices_u_dict[u_simplex_id]\n                head_idx = u_simplex[1]", "B-ORDER", "boundary_matrix"),
+    M("edge-branch-same-sign", HO, "                B[simplices_d_dict[tail_idx], matrix_id] = -(\n                    (-1) ** orientations[u_simplex_id]\n                )", "                B[simplices_d_dict[tail_idx], matrix_id] = (\n                    (-1) ** orientations[u_simplex_id]\n                )", "B-EDGE", "boundary_matrix"),
+    M("edge-branch-head-tail-swapped", HO, "                head_idx = u_simplex[1]\n                tail_idx = u_simplex[0]", "                head_idx = u_simplex[0]\n                tail_idx = u_simplex[1]", "B-EDGE", "boundary_matrix"),
+    M("face-loop-skips", HO, "                for count, subf in enumerate(u_simplex_subfaces):\n                    subface_ID", "                for count, subf in enumerate(u_simplex_subfaces):\n                    if count == order:\n                        continue\n                    subface_ID", "B-FACE", "boundary_matrix"),
+    M("hodge-default-orientations-second", HO, "    B_op1 = boundary_matrix(S, order + 1, orientations, False)", "    B_op1 = boundary_matrix(S, order + 1, None, False)", "B-HODGE", "hodge_laplacian"),
+    M("hodge-wrong-order", HO, "    B_op1 = boundary_matrix(S, order + 1, orientations, False)", "    B_op1 = boundary_matrix(S, order + 2, orientations, False)", "B-HODGE", "hodge_laplacian"),
+    M("subfaces-codim1-reversed", SC, "            for face in combinations(simplex, size - 1):\n                faces.append(face)", "            for face in combinations(simplex[::-1], size - 1):\n                faces.append(face)", "B-FACE", "_subfaces"),
+    R("sign-without-mod", HO, "                    (orientations[u_simplex_id] + order - i) % 2\n", "                    orientations[u_simplex_id] + order - i\n"),
+    R("sign-inline", HO, "                    B[simplices_d_dict[subface_ID], matrix_id] = (-1) ** (\n                        subfaces_induced_orientation[count] + orientations[subface_ID]\n                    )", "                    B[simplices_d_dict[subface_ID], matrix_id] = (-1) ** (\n                        orientations[u_simplex_id] + order - count + orientations[subface_ID]\n                    )"),
+]
+
+# --------------------------------------------------------------------------- C19
+VARIANTS["C19"] = [
+    M("cleanup-isolates-before-singletons", HG, "        if not singletons:\n            _H.remove_edges_from(_H.edges.singletons())\n        if not isolates:\n            _H.remove_nodes_from(_H.nodes.isolates())", "        if not isolates:\n            _H.remove_nodes_from(_H.nodes.isolates())\n        if not singletons:\n            _H.remove_edges_from(_H.edges.singletons())", "Q-ORDER", "Hypergraph.cleanup"),
+    M("cleanup-relabel-before-component", HG, "        if connected:\n            from ..algorithms import largest_connected_hypergraph\n\n            largest_connected_hypergraph(_H, in_place=True)\n        if relabel:\n            from ..utils import convert_labels_to_integers\n\n            convert_labels_to_integers(_H, in_place=True)\n\n        return _H", "        if relabel:\n            from ..utils import convert_labels_to_integers\n\n            convert_labels_to_integers(_H, in_place=True)\n        if connected:\n            from ..algorithms import largest_connected_hypergraph\n\n            largest_connected_hypergraph(_H, in_place=True)\n\n        return _H", "Q-ORDER", "Hypergraph.cleanup"),
+    M("cleanup-flag-inverted", HG, "        if not singletons:\n            _H.remove_edges_from(_H.edges.singletons())", "        if singletons:\n            _H.remove_edges_from(_H.edges.singletons())", "Q-FLAG", "Hypergraph.cleanup"),
+    M("cleanup-wrong-flag", DH, "        if not isolates:\n            _DH.remove_nodes_from(_DH.nodes.isolates())", "        if not relabel:\n            _DH.remove_nodes_from(_DH.nodes.isolates())", "Q-FLAG", "DiHypergraph.cleanup"),
+    M("cleanup-acts-on-self", SC, "        if not isolates:\n            _S.remove_nodes_from(_S.nodes.isolates())", "        if not isolates:\n            self.remove_nodes_from(self.nodes.isolates())", "Q-COPY", "SimplicialComplex.cleanup"),
+    M("cleanup-relabel-not-in-place", HG, "            convert_labels_to_integers(_H, in_place=True)\n\n        return _H", "            convert_labels_to_integers(_H)\n\n        return _H", "Q-COPY", "Hypergraph.cleanup"),
+    M("cleanup-returns-self", DH, "            convert_labels_to_integers(_DH, in_place=True)\n\n        return _DH", "            convert_labels_to_integers(_DH, in_place=True)\n\n        return self", "Q-COPY", "DiHypergraph.cleanup"),
+    M("relabel-labels-before-nodes", UT, "    net.add_nodes_from((idx, deepcopy(node_attrs[n])) for n, idx in node_dict.items())\n    net.set_node_attributes({idx: {label_attribute: n} for n, idx in node_dict.items()})", "    net.set_node_attributes({idx: {label_attribute: n} for n, idx in node_dict.items()})\n    net.add_nodes_from((idx, deepcopy(node_attrs[n])) for n, idx in node_dict.items())", "Q-LABEL", "convert_labels_to_integers"),
+    M("relabel-maps-after-clear", UT, "    node_dict = dict(zip(net.nodes, range(net.num_nodes)))\n    edge_dict = dict(zip(net.edges, range(net.num_edges)))\n\n    if not in_place:\n        net = net.copy()\n\n    node_attrs = net._node_attr.copy()\n    edge_attrs = net._edge_attr.copy()\n    edges = net._edge.copy()\n    net.clear(remove_net_attr=False)", "    if not in_place:\n        net = net.copy()\n\n    node_attrs = net._node_attr.copy()\n    edge_attrs = net._edge_attr.copy()\n    edges = net._edge.copy()\n    net.clear(remove_net_attr=False)\n    node_dict = dict(zip(net.nodes, range(net.num_nodes)))\n    edge_dict = dict(zip(net.edges, range(net.num_edges)))", "Q-LABEL", "convert_labels_to_integers"),
+    M("relabel-drops-net-attrs", UT, "    net.clear(remove_net_attr=False)\n", "    net.clear()\n", "Q-LABEL", "convert_labels_to_integers"),
+    M("relabel-stores-new-label", UT, "    net.set_edge_attributes({idx: {label_attribute: e} for e, idx in edge_dict.items()})", "    net.set_edge_attributes({idx: {label_attribute: idx} for e, idx in edge_dict.items()})", "Q-LABEL", "convert_labels_to_integers"),
+    R("cleanup-merge-after-singletons", HG, "        if not multiedges:\n            _H.merge_duplicate_edges()\n        if not singletons:\n            _H.remove_edges_from(_H.edges.singletons())", "        if not singletons:\n            _H.remove_edges_from(_H.edges.singletons())\n        if not multiedges:\n            _H.merge_duplicate_edges()"),
+    R("cleanup-component-first", SC, "        if not isolates:\n            _S.remove_nodes_from(_S.nodes.isolates())\n        if connected:\n            from ..algorithms import largest_connected_hypergraph\n\n            largest_connected_hypergraph(_S, in_place=True)", "        if connected:\n            from ..algorithms import largest_connected_hypergraph\n\n            largest_connected_hypergraph(_S, in_place=True)\n        if not isolates:\n            _S.remove_nodes_from(_S.nodes.isolates())"),
+]
+
 
 def variants_for(prop):
     return list(VARIANTS.get(prop, []))
